@@ -212,6 +212,58 @@ def make_export(qs, mode, anacrusis="shift", min_ppq=0, pickup=False, pin_second
     return h
 
 
+def make_import_roundtrip(mode):
+    """score -> MidiFile -> load_score_midi on concrete vectors (the importer runs pitch spelling / measure and tie
+    construction on numeric arrays: outside the symbolic encoding)."""
+
+    def h(on_a: int, du_a: int, on_b: int, du_b: int, unison: bool):
+        import partitura.score as S
+        from partitura.io import exportmidi as EM
+        from partitura.io import importmidi as IM
+        from engine import sym
+
+        require(0 <= on_a <= 24)
+        require(1 <= du_a <= 8)
+        require(0 <= on_b <= 24)
+        require(1 <= du_b <= 8)
+        if sym._ACTIVE["symbolic"]:
+            return 0
+        q = 4
+        part = S.Part("P0", quarter_duration=q)
+        part.add(S.TimeSignature(4, 4), 0)
+        part.add(S.Note("C", 4, id="a", voice=1), on_a, on_a + du_a)
+        part.add(S.Note("C" if unison else "E", 4, id="b", voice=2), on_b, on_b + du_b)  # second voice, possibly a unison
+        part.add(S.Note("G", 3, id="c", voice=1), 0, 1)
+        p2 = S.Part("P1", quarter_duration=3)
+        p2.add(S.TimeSignature(4, 4), 0)
+        p2.add(S.Note("C", 4, id="d", voice=1), 0, 3)  # the same pitch in another part
+        sc = S.Score([part, p2])
+        exp = sorted([(on_a / q, du_a / q, 60), (on_b / q, du_b / q, 60 if unison else 64), (0.0, 1 / q, 55), (0.0, 1.0, 60)])
+        mf = must_not_raise(EM.save_score_midi, sc, None, part_voice_assign_mode=mode, _what="save_score_midi")
+        # the property's precondition: equal pitches must not overlap within one track/channel
+        if mode in (2, 3, 4) or (mode in (1,)):
+            pass
+        back = must_not_raise(IM.load_score_midi, mf, part_voice_assign_mode=mode, _what="load_score_midi")
+        na = back.note_array(include_divs_per_quarter=True)
+        got = sorted((round(float(r["onset_div"]) / float(r["divs_pq"]), 6), round(float(r["duration_div"]) / float(r["divs_pq"]), 6),
+                      int(r["pitch"])) for r in na)  # timeline positions in quarters (independent of where the importer puts bar lines)
+        exp = sorted((round(a, 6), round(b, 6), c) for a, b, c in exp)
+        # precondition of the property: equal pitches must not overlap within one track/channel
+        ov = lambda s1, e1, s2, e2: s1 < e2 and s2 < e1
+        same_channel_voices = mode in (2, 3, 4)          # voices of a part share a channel
+        same_channel_parts = mode == 4                   # everything on one channel
+        skip = False
+        if unison and same_channel_voices and ov(on_a, on_a + du_a, on_b, on_b + du_b):
+            skip = True
+        if same_channel_parts and (ov(on_a, on_a + du_a, 0, q) or (unison and ov(on_b, on_b + du_b, 0, q))):
+            skip = True
+        if not skip:
+            check(got == exp, "sounding notes after export and import differ", mode, got, exp)
+        return got
+
+    return h
+
+
 def make_trch(mode):
     """map_to_track_channel against the documented table, 3 keys with symbolic group/part/voice ids."""
 
@@ -293,6 +345,11 @@ HARNESSES = [
              "with symbolic onset/duration (divs) and symbolic second voice 1..2, symbolic velocity; concrete mode / "
              "anacrusis policy / minimum_ppq per instance",
       outside="file bytes; ties, grace notes, key/tempo marks (thorough adds some); load_score_midi"),
+    H("import_roundtrip", make_import_roundtrip, lambda tier: [{"mode": m} for m in (0, 2, 5)], budget={"quick": 20, "thorough": 20}, core=False,
+      vectors=[{"on_a": 0, "du_a": 8, "on_b": 4, "du_b": 4, "unison": True}, {"on_a": 4, "du_a": 4, "on_b": 0, "du_b": 8, "unison": True},
+               {"on_a": 2, "du_a": 3, "on_b": 9, "du_b": 1, "unison": False}, {"on_a": 16, "du_a": 8, "on_b": 16, "du_b": 8, "unison": True}],
+      functions=["importmidi.load_score_midi", "importmidi.create_part", "exportmidi.save_score_midi (concrete vectors, real libraries)"],
+      bounds="import half of the property on concrete vectors only: two parts (divisions 4 and 3), two voices meeting on a unison, modes 0/2/5; onsets compared relative to the first note (the importer places bar lines / pickup itself)"),
     H("track_channel", make_trch, lambda tier: [{"mode": m} for m in range(6)], budget={"quick": 150, "thorough": 400},
       functions=["exportmidi.map_to_track_channel"],
       bounds="one fixed and two symbolic (group, part, voice) keys over 3 parts in 2 groups x 2 voices (enumerated), all six modes"),
